@@ -215,6 +215,9 @@ type HostSpec struct {
 	// Overrides: the host registers its own functions under the names of built-ins (visited, visited_count,
 	// round, string): what a host registered stays registered, whatever the runner does later
 	Overrides bool `json:"overrides,omitempty"`
+	// FailedRegs: the host attempts registrations the library refuses (unsupported signatures) - for a new name,
+	// for the name of a built-in, for a command; a refused registration changes nothing
+	FailedRegs bool `json:"failed_regs,omitempty"`
 	// Reentrant: a handler that the runner calls synchronously (raw commands, converted handlers returning a
 	// channel) registers one more command and one more function on its runner while it runs
 	Reentrant bool   `json:"reentrant,omitempty"`
@@ -437,6 +440,14 @@ func (h *Host) register() {
 			}
 		}))
 		must(h.dr.ConvertAndAddFunction("pfail", func(x float64) (float64, error) { h.call("fn", "pfail", x); return 0, hostError(int(x)) }))
+	}
+	if h.spec.FailedRegs {
+		// the errors are the expected answer; what must not happen is a half-made entry
+		_ = h.dr.ConvertAndAddFunction("nofunc", func(c chan int) chan int { return c })
+		_ = h.dr.ConvertAndAddFunction("round", func(c chan int) chan int { return c })
+		_ = h.dr.ConvertAndAddFunction("visited", func(m map[string]int) {})
+		_ = h.dr.ConvertAndAddCommand("nocmd", func(c chan int) {})
+		_ = h.dr.ConvertAndAddCommand("wait", func(c chan int) {})
 	}
 	if h.spec.Overrides {
 		h.dr.AddFunction("visited_count", func(args []*variable.Value) (*variable.Value, error) {
